@@ -57,6 +57,33 @@ Theorem accepted_extraction_confined : forall fuel fs audit dest a,
   same_outside (allowed dest audit) fs (fst (fst (bob_extract fuel fs audit dest a))).
 Proof. exact accepted_extraction_confined_stmt. Qed.
 
+(* The judgement of _tarExtractFilter is about the file system state AT THE
+   TIME the member is extracted: an accepted member's full path (and hard link
+   target) resolves inside the destination in the very state [fs] that
+   TarFile.extract then acts on -- no resolution made for an earlier member is
+   reused.  [member_extraction_confined] and all theorems above depend on this:
+   their filter premise and their system calls share the same [fs]. *)
+Theorem filter_judges_current_state : forall fuel fs dest m nm,
+  tar_filter fuel fs dest m = Some nm ->
+  has_dotdot nm = false /\
+  inside dest (realpath fuel fs (join_dest dest nm)) = true /\
+  (is_lnk (m_kind m) = true -> inside dest (realpath fuel fs (join_dest dest (m_link m))) = true).
+Proof. exact filter_judges_current_state_stmt. Qed.
+
+(* ... and the extraction loop gives every member the state its predecessor left. *)
+Theorem loop_threads_state : forall fuel fs audit dest done f rest,
+  starts_with CONTENT_PREFIX (m_name f) = true ->
+  is_lnk (m_kind f) && negb (starts_with CONTENT_PREFIX (m_link f)) = false ->
+  let f' := mkMember (drop8 (m_name f)) (m_kind f) (if is_lnk (m_kind f) then drop8 (m_link f) else m_link f)
+                     (m_mode f) (m_data f) in
+  let r := tar_extract fuel fs dest f' (negb (is_lnk (m_kind f))) done (rev rest ++ f' :: done) in
+  x_st r <> MFatal -> x_consumed r = false ->
+  extract_loop fuel fs audit dest done (f :: rest) =
+  (fst (fst (extract_loop fuel (x_fs r) audit dest (f' :: done) rest)),
+   snd (fst (extract_loop fuel (x_fs r) audit dest (f' :: done) rest)),
+   x_nmk r || snd (extract_loop fuel (x_fs r) audit dest (f' :: done) rest)).
+Proof. exact loop_threads_state_stmt. Qed.
+
 (* One accepted member: every state reached while tarfile works on it
    (parent directories, the node itself, attributes, the fall-back of
    makelink) keeps the invariant "nothing outside the destination changed, no
@@ -236,4 +263,27 @@ Example roundtrip_nonvacuous :
     end
   | None => False
   end.
+Proof. vm_compute. repeat split; reflexivity. Qed.
+
+(* re-targeting: real/, lnk -> real, lnk/a, lnk -> ../../../o (same name again), lnk/v.
+   tarfile unlinks and re-creates the link; a judgement made with the state BEFORE the
+   second lnk member (stale resolution) would accept lnk/v, the judgement in the current
+   state rejects it; the outside file is untouched. *)
+Definition ex_retarget_pre : list member :=
+  [ex_auditm; mkMember (c [114]) MDir [] 493 []; mkMember (c [108]) MSym [114] 511 [];
+   mkMember (c [108; 47; 97]) MReg [] 420 [102]].
+Definition ex_retarget_sym : member := mkMember (c [108]) MSym [46;46;47;46;46;47;46;46;47;111] 511 [].
+Definition ex_retarget_write : member := mkMember (c [108; 47; 118]) MReg [] 420 [111; 119; 110].
+
+Example retargeted_symlink_judged_in_current_state :
+  let before := fst (fst (bob_extract 20 ex_fs ex_audit ex_dest (mkArtifact (Some VSN_ONE) ex_retarget_pre true))) in
+  let now := fst (fst (bob_extract 20 ex_fs ex_audit ex_dest (mkArtifact (Some VSN_ONE) (ex_retarget_pre ++ [ex_retarget_sym]) true))) in
+  let t := ex_dest ++ [[108]; [118]] in
+  inside ex_dest (realpath 20 before t) = true /\          (* stale judgement: accept *)
+  inside ex_dest (realpath 20 now t) = false /\            (* current state: refuse *)
+  sym_at now (ex_dest ++ [[108]]) = Some [46;46;47;46;46;47;46;46;47;111] /\
+  let r := bob_extract 20 ex_fs ex_audit ex_dest
+             (mkArtifact (Some VSN_ONE) (ex_retarget_pre ++ [ex_retarget_sym; ex_retarget_write]) true) in
+  snd (fst r) = Rejected /\ inode_of (fst (fst r)) 1 = Some (mkInode KReg [112; 114; 101] 384) /\
+  stat (fst (fst r)) [[111]; [118]] = Some (SLeaf 1).
 Proof. vm_compute. repeat split; reflexivity. Qed.
